@@ -287,3 +287,73 @@ Theorem c16_rendered_yansi_quirk_refuted :
     (bs <- g_yansi_render ya_no_oracle false st ;; ad_interp_x bs) = Some (mkStyle (Some (CAnsi 9)) None None 0) /\
     ya_meaning st = mkStyle (Some (CAnsi 1)) None None 0.
 Proof. exact yansi_render_quirk_refuted. Qed.
+(* ---- the RENDERING code of termcolor (tools/gen_fn_termcolor.py -> Generated/TermcolorFn.v) -----
+   [g_tcr_render] is the harness's `tc::render` (termcolor::Ansi::new(Vec::new()), set_color,
+   write_all(b"x"), reset, into_inner) over the library's `Ansi<W>::set_color` / `write_color` /
+   `reset` and the `ColorSpec` setters, all translated by tools/rs2v on every run from the registry
+   source of the termcolor version Cargo.lock pins (the one cargo links into the harness).  A
+   [tc_spec] is a termcolor::ColorSpec (Model/Termcolor.v), [tcr_spec_ok]: its colour components
+   are u8 and no colour is the hidden variant `__Nonexhaustive`.  [tcr_bytes sp] spells the bytes
+   out, [tcr_shown sp] is the rendition ([tcr_colour]: a named colour is CAnsi hue, with
+   `set_intense` the 256-palette entry 8 + hue; [tcr_eff]: bold, dimmed, italic, underline,
+   strikethrough).  [tcr_spec_of t] is the ColorSpec an abstract target style denotes (names ->
+   the translated `ColorSpec::new` and setters); [tcr_render_tstyle t] renders it.  [ad_interp_x]
+   (Spec/Targets) is the rendition Spec/Vt + Spec/Sgr give the text, read from the terminal's
+   default state.  [tcr_src_u8 s]: the indexed / RGB components of the anstyle style are u8. *)
+From AV Require Import Spec.Render Model.Termcolor Generated.TermcolorFn Proofs.TermcolorFnGen.
+
+(* every ColorSpec: the translated library code does not panic, writes [tcr_bytes sp], and a
+   terminal shows the text in the rendition [tcr_shown sp] *)
+Theorem c16_rendered_termcolor_every_spec : forall sp, tcr_spec_ok sp ->
+  g_tcr_render sp = Some (tcr_bytes sp) /\ ad_interp_x (tcr_bytes sp) = Some (tcr_shown sp).
+Proof. exact tcr_render_shown. Qed.
+
+(* every target style the meaning tables of Spec/Targets give a meaning to is a ColorSpec (built
+   by the translated constructor and setters) whose [tcr_shown] is exactly that meaning *)
+Theorem c16_rendered_termcolor_table_values : forall t m, tcr_tstyle_ok t -> ad_meaning AdTermcolor t = Some m ->
+  exists sp, tcr_spec_of t = Some sp /\ tcr_spec_ok sp /\ tcr_shown sp = m.
+Proof. exact tcr_meaning_shown. Qed.
+
+(* [tcr_spec_of] is the call sequence of to_termcolor_spec: the abstract value the translated
+   adapter builds for ColorSpec::new(); set_fg; set_bg; set_bold(b1); set_dimmed(b2); set_italic(b3);
+   set_underline(b4) denotes the ColorSpec the translated constructor and setters build in that order
+   ([tcr_n_set_bold] .. are the names "set_bold" .. as byte lists) *)
+Theorem c16_rendered_termcolor_value_is_call_sequence : forall cf cb f b b1 b2 b3 b4,
+  tcr_ocolor_of cf = Some f -> tcr_ocolor_of cb = Some b ->
+  tcr_spec_of (ad_t_flag (ad_t_flag (ad_t_flag (ad_t_flag (ad_t_set_bg (ad_t_set_fg ad_t_new cf) cb)
+                 tcr_n_set_bold b1) tcr_n_set_dimmed b2) tcr_n_set_italic b3) tcr_n_set_underline b4) =
+  Some (fst (g_tcr_set_underline (fst (g_tcr_set_italic (fst (g_tcr_set_dimmed (fst (g_tcr_set_bold
+         (fst (g_tcr_set_bg (fst (g_tcr_set_fg g_tcr_spec_new f)) b)) b1)) b2)) b3)) b4)).
+Proof. exact tcr_spec_of_call_sequence. Qed.
+
+(* hence the library RENDERS such a value as the tables say (no normalisation needed: equal) *)
+Theorem c16_rendered_termcolor_as_tables_say : forall t m, tcr_tstyle_ok t -> ad_meaning AdTermcolor t = Some m ->
+  exists bytes, tcr_render_tstyle t = Some bytes /\ ad_interp_x bytes = Some m /\ ad_render_ok m bytes = true.
+Proof. exact tcr_meaning_rendered. Qed.
+
+(* render (convert s) is read as project(s): translated adapter, then translated library, then
+   the terminal -- for every anstyle style with u8 components *)
+Theorem c16_rendered_termcolor_convert : forall s, ad_src_ok s -> tcr_src_u8 s ->
+  exists bytes, (t <- g_to_termcolor_spec s ;; tcr_render_tstyle t) = Some bytes /\
+                ad_interp_x bytes = Some (ad_project AdTermcolor s) /\
+                ad_render_ok (ad_project AdTermcolor s) bytes = true.
+Proof. exact tcr_convert_rendered. Qed.
+
+(* outside the adapter's image: with `set_intense` every named colour is shown as palette entry
+   8 + hue (both slots at once), which the "intense off" table of Spec/Targets does not cover *)
+Theorem c16_rendered_termcolor_intense : forall sp, tcr_spec_ok sp -> tcs_intense sp = true ->
+  exists bytes, g_tcr_render sp = Some bytes /\
+    ad_interp_x bytes = Some (mkStyle (option_map (tcr_colour true) (tcs_fg_color sp))
+                                      (option_map (tcr_colour true) (tcs_bg_color sp)) None (tcr_eff sp)).
+Proof. exact tcr_intense_shown. Qed.
+
+Theorem c16_rendered_termcolor_intense_witness :
+  let sp := fst (g_tcr_set_intense (fst (g_tcr_set_fg g_tcr_spec_new (Some TcRed))) true) in
+  option_map (fun bs => option_map ad_norm_style (ad_interp_x bs)) (g_tcr_render sp)
+  = Some (Some (mkStyle (Some (CAnsi 9)) None None 0)).
+Proof. exact tcr_intense_witness. Qed.
+
+(* the hidden variant `Color::__Nonexhaustive` makes write_color panic (unreachable!) *)
+Theorem c16_rendered_termcolor_nonexhaustive_panics :
+  g_tcr_render (fst (g_tcr_set_fg g_tcr_spec_new (Some TcNonexhaustive))) = None.
+Proof. exact g_tcr_render_nonexhaustive_panics. Qed.
